@@ -11,7 +11,7 @@ CLAIM = {
          "subscription order among equals, stop at halt, removed / one-shot handlers never again, nobody skipped or invoked twice. Also: "
          "raiseEventNoErrors never propagates a handler exception, undeclared event types are rejected on subscribe and raise, every removeListener "
          "form works, weak handlers vanish with their owner."
-         " Also (O2_misc): weak subscriptions in six forms incl. owners dying during delivery and weak handlers returning control values, error suppression for every exception class, bulk removal, removal by reference of a callable subscribed to two event types.",
+         " Also (O2_misc): weak subscriptions in six forms incl. owners dying during delivery and weak handlers returning control values, error suppression for every exception class, bulk removal, removal by reference of a callable subscribed to two event types. Nested deliveries against one-shot / self-removing handlers run in the quick tier; weak subscriptions unsubscribed by handler reference.",
  'note': "Trusted: CPython, z3, symx proxies, the reference dispatcher in props/C05.py. Selector-dominated: apart from the priorities this is bounded "
          "exhaustive enumeration of histories driven by the solver.",
 }
